@@ -232,3 +232,46 @@ class CallGen:
 
 def gen_call(rng, spec, values=None, p_kw=0.3):
     return CallGen(spec, values).call(rng, p_kw)
+
+
+# --------------------------------------------------------------------------- wide annotation grammar
+WIDE_VALUES = VALUE_POOL + [["t", ["v", 1]], ["t", ["v", "a"]], ["t", ["mi", 2]], ["t"], ["t", ["v", 1], ["v", "a"]],
+                            ["l", ["v", 1]], ["l", ["v", "a"]], ["l"], ["d"], ["d", [["v", "k"], ["v", 1]]],
+                            ["d", [["v", "a"], ["v", "b"]]], ["v", "abc"], ["v", "xa"], ["v", -3]]
+
+
+def gen_wide_tx(rng, classes, depth=0):
+    """annotation from the whole supported grammar (C01 / C10 / C11 workloads)"""
+    atoms = classes + ["object", "int", "str", "MyInt", "bool"]
+    r = rng.random()
+    if depth >= 2 or r < 0.34:
+        return rng.choice(atoms)
+    if r < 0.44:
+        a, b = gen_wide_tx(rng, classes, depth + 1), gen_wide_tx(rng, classes, depth + 1)
+        return ["U", a, b] if T.tname(a) != T.tname(b) else a
+    if r < 0.50:
+        # intersections: members that need no normalisation of their own (see tx.ann)
+        a = rng.choice(atoms)
+        b = rng.choice([rng.choice(atoms), ["H", "bit_length"], ["D", "int", "even"], ["D", "object", "truthy"],
+                        ["S", "int"], ["X", rng.choice(classes + ["int"])]])
+        return ["I", a, b] if T.tname(a) != T.tname(b) else a
+    if r < 0.55:
+        return ["X", rng.choice(classes + ["int", "MyInt"])]
+    if r < 0.60:
+        return ["S", rng.choice(classes + ["int", "object"])]
+    if r < 0.70:
+        return ["L", *rng.sample([0, 1, 2, 3], rng.choice([1, 1, 2]))] if rng.random() < 0.8 else ["L", "a", 0]
+    if r < 0.82:
+        return gen_dep_tx(rng, classes)
+    if r < 0.88:
+        return ["T", gen_wide_tx(rng, classes, depth + 1)] if rng.random() < 0.7 else \
+            ["T", gen_wide_tx(rng, classes, depth + 1), gen_wide_tx(rng, classes, depth + 1)]
+    if r < 0.92:
+        return [rng.choice(["Ls", "Sq"]), rng.choice(["int", "str", "MyInt"])]
+    if r < 0.95:
+        return rng.choice([["SW", "a"], ["EW", "a"], ["Rx", "^a"], ["HK", "k"]])
+    if r < 0.98:
+        return ["H", rng.choice(["bit_length", "fly", "__len__"])]
+    if depth == 0:
+        return ["Ty", rng.choice(classes + ["int"])]
+    return rng.choice(atoms)
